@@ -48,7 +48,7 @@ CHECKS = {
              'prelocked_thread_interrupt.  Spin iterations are cut by await-as-assume.',
         technique='bounded-context-switch sequentialisation of the real code (ir2c --thread) + CBMC; native CBMC threads with --mm sc/tso for the spin locks', design_ref='DESIGN.md §3 C01, §7.1'),
     'C02': dict(
-        text='photon semaphore on the kernel contract K (real wait_interruptible / signal / try_resume / try_subtract inlined): 1 waiter (demand 1..2, timeout never/finite/expired), 1 signaller (0..2 tokens), '
+        text='photon semaphore on the kernel contract K (real wait_interruptible / signal / try_resume / try_subtract inlined): 1 waiter (demand 1..2, timeout never/finite/expired), 1 signaller (0..2 tokens), optionally an interrupter of the waiter, or a second running waiter (out-of-order mode quick, in-order thorough), '
              'initial count 0..2, in-order and out-of-order mode: tokens conserved at quiescence, a failed wait takes nothing, and in every stuck end state the blocked head waiter is not covered by the count (no lost wake-up); the same with a second, constructed sleeping waiter queued behind the running one and a signaller that may take a token itself (sem_2w_ghost_io).  '
              'One-step check of the real signal() / try_resume from every queue state of <= 2 sleeping waiters (demands 1..4, count 0..3): exactly the waiters covered under the mode\'s rule are woken, once, every lock is released, and signal() never spins on a lock nobody can release.',
         note='Known finding (not repaired, known_findings.json): in out-of-order mode signal() self-deadlocks when its scan finds a covered waiter (job signal_step_ooo).  Only 2 running threads fit the memory budget on Layer B (9-10 GB, 4-6 min each); three running threads ran out of memory at 32 GB.  signal() from a plain OS thread and '
